@@ -95,6 +95,7 @@ pub fn giant_buffer_probe(ctx: &Ctx, rep: &mut Report, pid: &str, mask: u32, r: 
             rep.class(format!("t{}|giant-buffer|2^{}", t, if bytes >= 1 << 29 { 32 } else { 31 }));
             rep.count("giant-buffers");
             let what = format!("type {} message followed by zeros, {} bytes in all", t, bytes);
+            crate::mon::allow(buf.len());
             match crate::mon::guard(|| ais::messages::parse(&buf).ok().map(|m| crate::observe::message(&m))) {
                 Err(pi) => rep.violation(pid, format!("panic@{}", pi.loc), format!("{}: panic '{}'", what, pi.msg), || crate::mon::replay_message(&pb, "giant buffer (prefix shown; zeros follow)")),
                 Ok(None) => {
